@@ -60,7 +60,11 @@ def strategy():
                           "leave-disconnect": [("leave",), ("disconnect",)], "goodbye-leave": [("goodbye",), ("leave",)]}[ending])
         steps.append(("resolve",))
         illegal = draw(st.one_of(st.none(), st.tuples(st.integers(0, len(steps)), st.sampled_from(["event", "result", "goodbye", "welcome", "challenge", "abort", "registered", "hello", "invocation"]))))
-        return {"cbs": cbs, "steps": steps, "illegal": illegal, "ser": draw(st.sampled_from(["json", "cbor"]))}
+        # the reason URI (and message) the router puts on its GOODBYE: whether it is answered depends only on who initiated closing
+        gb = draw(st.sampled_from([None, None, "wamp.close.goodbye_and_out", "wamp.close.normal", "wamp.close.system_shutdown", "wamp.close.close_realm",
+                                   "wamp.error.not_authorized", "com.example.bye"]))
+        return {"cbs": cbs, "steps": steps, "illegal": illegal, "ser": draw(st.sampled_from(["json", "cbor"])), "goodbye_reason": gb,
+                "goodbye_message": draw(st.sampled_from([None, None, "bye", "ü"]))}
     return hist()
 
 
@@ -238,7 +242,8 @@ class Run:
     def do_goodbye(self):
         if self.phase != "joined" or self.w.t.closed:
             return
-        err, n_ev, n_sent = self.feed(self.M.Goodbye("wamp.close.goodbye_and_out" if self.goodbye_sent else "wamp.close.system_shutdown"))
+        reason = self.c.get("goodbye_reason") or ("wamp.close.goodbye_and_out" if self.goodbye_sent else "wamp.close.system_shutdown")
+        err, n_ev, n_sent = self.feed(self.M.Goodbye(reason, self.c.get("goodbye_message")))
         if err is not None:
             self.fail("goodbye-raised|" + exc_key(err), repr(err))
         sent = self.sent_names(n_sent)
@@ -247,7 +252,7 @@ class Run:
                 self.fail("goodbye-answered-although-we-initiated", repr(sent))
         else:
             if sent.count("Goodbye") != 1:
-                self.fail("peer-goodbye-not-answered", repr(sent))
+                self.fail("peer-goodbye-not-answered", "router GOODBYE %r: sent %r" % (reason, sent))
             self.goodbye_sent = True
         self.goodbye_rcvd = True
         self.phase = "left"
